@@ -6,17 +6,28 @@ use std::ops::{Deref, DerefMut};
 use std::sync::{LockResult, PoisonError, TryLockError, TryLockResult};
 
 pub struct Mutex<T: ?Sized> {
+  id: u32,
   inner: std::sync::Mutex<T>,
 }
 
 pub struct MutexGuard<'a, T: ?Sized> {
   guard: Option<std::sync::MutexGuard<'a, T>>,
   addr: usize,
+  id: u32,
+}
+
+fn mlog(kind: &str, id: u32, ok: &str) {
+  if rt::tracing() {
+    let obj = if id == 0 { "m?".to_string() } else { format!("m{}", id) };
+    rt::log_action(kind, &obj, "-", "-", "-", ok);
+  }
 }
 
 impl<T> Mutex<T> {
-  pub const fn new(value: T) -> Self {
-    Mutex { inner: std::sync::Mutex::new(value) }
+  #[track_caller]
+  pub fn new(value: T) -> Self {
+    let id = if rt::tracing() { rt::new_obj(true, "mutex", "-", std::panic::Location::caller()) } else { 0 };
+    Mutex { id, inner: std::sync::Mutex::new(value) }
   }
 
   pub fn into_inner(self) -> LockResult<T> {
@@ -30,7 +41,7 @@ impl<T: ?Sized> Mutex<T> {
   }
 
   fn wrap<'a>(&'a self, g: std::sync::MutexGuard<'a, T>) -> MutexGuard<'a, T> {
-    MutexGuard { guard: Some(g), addr: self.addr() }
+    MutexGuard { guard: Some(g), addr: self.addr(), id: self.id }
   }
 
   pub fn lock(&self) -> LockResult<MutexGuard<'_, T>> {
@@ -43,9 +54,18 @@ impl<T: ?Sized> Mutex<T> {
     loop {
       rt::sched_point();
       match self.inner.try_lock() {
-        Ok(g) => return Ok(self.wrap(g)),
-        Err(TryLockError::Poisoned(p)) => return Err(PoisonError::new(self.wrap(p.into_inner()))),
-        Err(TryLockError::WouldBlock) => rt::mutex_block(self.addr()),
+        Ok(g) => {
+          mlog("lock", self.id, "-");
+          return Ok(self.wrap(g));
+        }
+        Err(TryLockError::Poisoned(p)) => {
+          mlog("lock", self.id, "-");
+          return Err(PoisonError::new(self.wrap(p.into_inner())));
+        }
+        Err(TryLockError::WouldBlock) => {
+          mlog("lockwait", self.id, "-");
+          rt::mutex_block(self.addr())
+        }
       }
     }
   }
@@ -53,9 +73,18 @@ impl<T: ?Sized> Mutex<T> {
   pub fn try_lock(&self) -> TryLockResult<MutexGuard<'_, T>> {
     rt::sched_point();
     match self.inner.try_lock() {
-      Ok(g) => Ok(self.wrap(g)),
-      Err(TryLockError::Poisoned(p)) => Err(TryLockError::Poisoned(PoisonError::new(self.wrap(p.into_inner())))),
-      Err(TryLockError::WouldBlock) => Err(TryLockError::WouldBlock),
+      Ok(g) => {
+        mlog("trylock", self.id, "1");
+        Ok(self.wrap(g))
+      }
+      Err(TryLockError::Poisoned(p)) => {
+        mlog("trylock", self.id, "1");
+        Err(TryLockError::Poisoned(PoisonError::new(self.wrap(p.into_inner()))))
+      }
+      Err(TryLockError::WouldBlock) => {
+        mlog("trylock", self.id, "0");
+        Err(TryLockError::WouldBlock)
+      }
     }
   }
 
@@ -69,12 +98,14 @@ impl<T: ?Sized> Mutex<T> {
 }
 
 impl<T: Default> Default for Mutex<T> {
+  #[track_caller]
   fn default() -> Self {
     Mutex::new(T::default())
   }
 }
 
 impl<T> From<T> for Mutex<T> {
+  #[track_caller]
   fn from(v: T) -> Self {
     Mutex::new(v)
   }
@@ -106,6 +137,7 @@ impl<T: ?Sized> Drop for MutexGuard<'_, T> {
     rt::sched_point();
     self.guard = None;
     rt::mutex_released(self.addr);
+    mlog("unlock", self.id, "-");
   }
 }
 
